@@ -408,12 +408,12 @@ def member_cvx(m, x):
     raise Unsupported("no cvxpy model for %s" % type(m).__name__)
 
 
-def minimise_sum(leaves, prox_center=None, gamma=None):
-    """argmin sum w_i f_i(x) (+ 1/(2 gamma) ||x - center||^2) with cvxpy/Clarabel at tight tolerances."""
+def minimise_sum(leaves, prox_center=None, gamma=None, linear=None):
+    """argmin sum w_i f_i(x) (+ 1/(2 gamma) ||x - center||^2) (- <linear, x>) with cvxpy/Clarabel at tight tolerances."""
     import cvxpy as cp
     d = leaves[0][1].member.dim
     x = cp.Variable(d)
-    obj = 0
+    obj = 0 if linear is None else -(linear @ x)
     cons = []
     for w, f in leaves:
         if w < 0:
@@ -454,6 +454,10 @@ class NPEP(object):
             m = hook(cls, params, rng, CTX.dim) if hook else None
             if m is None:
                 m = M.make_member(cls, params, rng, dim=CTX.dim)
+                tries = 0
+                while CTX.adversary.get("smooth_only") and m.multivalued and tries < 25:
+                    m = M.make_member(cls, params, rng, dim=CTX.dim)     # keep drawing until a single-valued member comes
+                    tries += 1
             if CTX.adversary.get("common_centre") and hasattr(m, "c") and isinstance(getattr(m, "c"), np.ndarray):
                 m.c = np.zeros_like(m.c)       # all declared functions share their minimiser / zero
         ok, why = m.self_test(rng)
@@ -494,6 +498,11 @@ class NPEP(object):
 
     def set_performance_metric(self, expression, name=None):
         CTX.metrics.append(expression.x)
+
+    class _W(object):
+        solver_name = "numeric"
+
+    wrapper = _W()
 
     def solve(self, *a, **kw):
         CTX.solve_calls += 1
@@ -636,6 +645,92 @@ def epsilon_subgradient_step(x0, f, gamma):
     return NPt(x0.v - gamma * g0), NPt(g0), NEx(f._value(x0.v)), NEx(max(eps, 0.0))
 
 
+def inexact_proximal_step(x0, f, gamma, opt='PD_gapII'):
+    """An admissible inexact proximal answer: points near the exact prox p, subgradients taken where they are claimed,
+    and eps_var set to the TRUE primal-dual gap  1/2 ||x - x0 + gamma v||^2 + gamma (f(x) - f(w) - <v, x - w>)."""
+    rng = CTX.choice_rng()
+    p = _prox(f, x0.v, gamma)
+    s = float(np.linalg.norm(x0.v - p)) + 1e-3
+    theta = CTX.adversary.get("inexact_level")
+    if theta is None:
+        theta = rng.choice([0.0, 0.02, 0.05, 0.1, 0.2, 0.4])
+    d = len(p)
+
+    def unit():
+        u = np.array([rng.gauss(0, 1) for _ in range(d)])
+        return u / max(np.linalg.norm(u), 1e-12)
+
+    if opt == 'PD_gapI':
+        x = p + theta * s * unit()
+        w = x.copy() if rng.random() < 0.5 else p + theta * s * unit()
+        v = f._grad(w)
+        gx = f._grad(x)
+        fx, fw = f._value(x), f._value(w)
+        gap = 0.5 * float((x - x0.v + gamma * v) @ (x - x0.v + gamma * v)) + gamma * (fx - fw - float(v @ (x - w)))
+        return NPt(x), NPt(gx), NEx(fx), NPt(w), NPt(v), NEx(fw), NEx(max(gap, 0.0))
+    if opt == 'PD_gapII':
+        x = p + theta * s * unit()
+        gx = f._grad(x)
+        e = x - x0.v + gamma * gx
+        fx = f._value(x)
+        return NPt(x), NPt(gx), NEx(fx), NPt(x), NPt(gx), NEx(fx), NEx(0.5 * float(e @ e))
+    if opt == 'PD_gapIII':
+        # v = (x0 - x)/gamma must be a subgradient at some w: only the exact answer is constructed
+        x = p
+        v = (x0.v - p) / gamma
+        if f.is_leaf() and f.member.multivalued:
+            f.forced[_key(p)] = v
+        fx = f._value(p)
+        return NPt(x), NPt(v), NEx(fx), NPt(p), NPt(v), NEx(fx), NEx(0.0)
+    raise ValueError(opt)
+
+
+def _mirror_solve(leaves, target):
+    """x with  target in sum_i w_i df_i(x)  (x = argmin sum w_i f_i - <target, .>); at most one non-smooth leaf, whose
+    subgradient at x is then forced to the value the optimality condition dictates (checked to be a subgradient)."""
+    rough = [(w, ff) for w, ff in leaves if ff.member.multivalued]
+    smooth = [(w, ff) for w, ff in leaves if not ff.member.multivalued]
+    if len(rough) > 1 or not smooth:
+        raise Unsupported("Bregman step with a non-smooth member")
+    x, _ = minimise_sum(leaves, linear=target)
+    gs = sum((w * ff.member.grad(x) for w, ff in smooth), np.zeros_like(x))
+    if rough:
+        w, ff = rough[0]
+        g = (target - gs) / w
+        inner = getattr(ff.member, "fm", ff.member)
+        if not hasattr(inner, "project"):
+            raise Unsupported("Bregman step with a non-smooth member")
+        if inner.dist(x) > 1e-9:
+            raise Unsupported("mirror equation not solved accurately")
+        rng = CTX.choice_rng()
+        for _ in range(12):
+            y = inner.project(x + np.array([rng.gauss(0, 1) for _ in range(len(x))]) * (1 + np.linalg.norm(x)))
+            if g @ (y - x) > 1e-7 * (1 + np.linalg.norm(g)) * (1 + np.linalg.norm(y - x)):
+                raise Unsupported("mirror equation not solved accurately")
+        ff.forced[_key(x)] = g
+    elif np.linalg.norm(gs - target) > 1e-6 * (1 + np.linalg.norm(target)):
+        raise Unsupported("mirror equation not solved accurately")
+    return x
+
+
+def bregman_gradient_step(gx0, sx0, mirror_map, gamma):
+    """x with  sx0 - gamma gx0  in dh(x)  (x = argmin h(x) - <s, x>)."""
+    sx = sx0.v - gamma * gx0.v
+    x = _mirror_solve([(w, ff) for w, ff in mirror_map._terms()], sx)
+    return NPt(x), NPt(sx), NEx(mirror_map._value(x))
+
+
+def bregman_proximal_step(sx0, mirror_map, min_function, gamma):
+    """x = argmin f(x) + (1/gamma) (h(x) - <sx0, x>); gx in df(x), sx = sx0 - gamma gx in dh(x)."""
+    if any(ff.member.multivalued for w, ff in min_function._terms()):
+        raise Unsupported("Bregman step with a non-smooth member")
+    leaves = _merge([(w, ff) for w, ff in min_function._terms()] + [(w / gamma, ff) for w, ff in mirror_map._terms()])
+    x = _mirror_solve(leaves, sx0.v / gamma)
+    gx = min_function._grad(x)
+    sx = sx0.v - gamma * gx
+    return NPt(x), NPt(sx), NEx(mirror_map._value(x)), NPt(gx), NEx(min_function._value(x))
+
+
 def _unsupported_step(*a, **kw):
     raise Unsupported("step not available numerically")
 
@@ -645,9 +740,9 @@ NUMERIC_STEPS = {
     "inexact_gradient_step": inexact_gradient_step,
     "exact_linesearch_step": exact_linesearch_step,
     "linear_optimization_step": linear_optimization_step,
-    "bregman_gradient_step": _unsupported_step,
-    "bregman_proximal_step": _unsupported_step,
-    "inexact_proximal_step": _unsupported_step,
+    "bregman_gradient_step": bregman_gradient_step,
+    "bregman_proximal_step": bregman_proximal_step,
+    "inexact_proximal_step": inexact_proximal_step,
     "epsilon_subgradient_step": epsilon_subgradient_step,
 }
 
